@@ -333,6 +333,50 @@ def vec_forms(N, L):
         return y
     ip('(V*C);imul V', imulv, lambda x: (x * 1.0) * cmat(L, N))
     ip('(V*C);iadd V', iaddv, lambda x: (x * 1.0) * cmat(L, N))
+    if L == 1:
+        # products of two POLYNOMIAL operands of every rank combination (non-symmetric matrices), and in-place updates whose
+        # right operand is an element / a row of the updated array itself
+        Mx = lambda x: (x * 1.0) * cmat(N, N)              # M[i,j] = c[i,j] x[j]
+        fs.append(('dot(V,M)', lambda x: algopy.dot(x, Mx(x))))
+        fs.append(('dot(M,V)', lambda x: algopy.dot(Mx(x), x)))
+        fs.append(('dot(V,V)', lambda x: algopy.dot(x, x * cvec(N)) * cvec(2)))
+        fs.append(('dot(M,M)', lambda x: algopy.dot(Mx(x), Mx(x) + cmat(N, N).T)))
+        fs.append(('dot(V,dot(M,V))', lambda x: algopy.dot(x * cvec(N), algopy.dot(Mx(x), x)) * cvec(2)))
+        fs.append(('outer(V,V)', lambda x: algopy.outer(x, x * cvec(N) + 1.0)))
+
+        def own(name, upd, const_first):
+            def f(x):
+                y = algopy.zeros(N + 1, dtype=x)
+                y[0] = 4.0 if const_first else x[0] * x[N - 1] + 2.0
+                y[1:] = x * x + x[0]
+                return upd(y)
+            fs.append((name, f))
+
+        def d0(y):
+            y /= y[0]
+            return y
+
+        def m0(y):
+            y *= y[0]
+            return y
+
+        def a0(y):
+            y += y[0]
+            y -= y[N]
+            return y
+
+        def mrow(y):
+            z = algopy.reshape(algopy.zeros(2 * (N + 1), dtype=y), (2, N + 1))
+            z[0] = y
+            z[1] = y * 2.0
+            z *= z[0]
+            z += z[1]
+            return z
+        own('buf;idiv by own constant element', d0, True)
+        own('buf;imul by own element', m0, False)
+        own('buf;imul by own constant element', m0, True)
+        own('buf;iadd,isub own elements', a0, False)
+        own('buf2d;imul,iadd own rows', mrow, False)
     return fs
 
 
